@@ -474,6 +474,14 @@ def main():
             c1, h1 = classify(b.exe, plan_path)
             c2, h2 = classify(b.exe, plan_path)
             set1, set2 = set(c for c, _ in c1), set(c for c, _ in c2)
+            if (set1 != set2 or h1 != h2) and (set1 | set2) and all(match_known(known, c.split("/")[0], c) for c in (set1 | set2)):
+                # a listed finding that is undefined behaviour by nature (KF-1 reads past two arrays): whether the
+                # out-of-bounds read ends in a crash depends on what lies behind the arrays in that process.  The
+                # finding itself is identified deterministically (hook H6); only its manifestation varies.
+                for c in (set1 | set2):
+                    kf = match_known(known, c.split("/")[0], c)
+                    known_hits[kf["id"]] = known_hits.get(kf["id"], 0) + 1
+                continue
             if set1 != set2 or h1 != h2:
                 machinery.append("seed %s (%s): replay is not reproducible: %s / %s" % (s, b.label, sorted(set1), sorted(set2)))
                 continue
